@@ -35,6 +35,11 @@ P = {
          "Decides for every crash point and write fault: the only file the client library ever creates is a freshly (randomly) named temporary in the ClientConf's own directory; the final name is only ever the destination of a rename, reached only after Marshal and the write both succeeded, and the renamed file is the one written; "
          "a failed SetClientConf restores the pointer loaded before the assignment; every store into the in-memory config is under the write lock and followed by a save on every path. With POSIX rename atomicity (assumed) no crash point can leave a truncated or mixed file. Durability across power loss is not in the statement.",
          "4/C20"),
+ "C16": (True, "must-pass pairing with defers, lockset guarded-by, value-flow key agreement, read-then-err path rule, guard dominance, constant comparison (go/ssa)",
+         "Decides: listener registrations (certificate, channel) are released on every exit of an accept; the routing maps and the SCTP read state are only touched under their mutexes; registration, routing, verification and certificate selection use the hello-random / certificates derived from the same PSK with consistent client/server roles on listener, stand-alone server and dialer; "
+         "data returned together with a stream error is delivered before the error on the heartbeat receive loop, hbConn.Read and SCTPConn.Read, and heartbeats are filtered before delivery; writes pass the size limit and the flow-control test/wait; the client heartbeat period is below the server watchdog. "
+         "Handshake outcomes, cross-delivery under concrete schedules and watchdog timing are not decided.",
+         "4/C16"),
  "C18": (True, "finite predicate abstraction of the Lookup conditions, guard dominance (polarity, nil tests, sibling wiring), lockset guarded-by, must-pass pairing (go/ssa)",
          "Decides: each cache Lookup answers true iff the key is present and its age is below the expiration (all valuations); probe results go to the cache of their verdict and hits return their cache's verdict; the probe is reached only on a double miss; "
          "Init wires each cache only from its own duration/capacity setting and passes the capacity it tested; every call through an optional cache is dominated by a nil test of the same field; cache maps only under their mutex; LRU inserts are registered, evictions delete under the lock, LRU sized by the configured capacity. "
